@@ -3032,7 +3032,17 @@ class LazyStackedTensorDict(TensorDictBase):
                     non_blocking=non_blocking,
                 )
             return self
-        unbind_dim = self.stack_dim - num_single
+        if split_index["has_bool"] or split_index["is_nd_tensor"]:
+            # a mask / an integer tensor on the stack dim: set_at_ knows how to dispatch them
+            for key, value in input_dict_or_td.items(True, True):
+                self.set_at_(key, value, index)
+            return self
+        unbind_dim = (
+            self.stack_dim
+            - num_single
+            + split_index["num_none"]
+            - split_index["num_squash"]
+        )
         for (i, _idx), _value in _zip_strict(
             converted_idx.items(),
             input_dict_or_td.unbind(unbind_dim),
